@@ -670,6 +670,12 @@ def m2_update_args(schema: Schema, rep: Report):
     if not appends:
         raise AnalysisError("M2: reducer collects no list member")
     for a in appends:
+        # members of all kinds go, in document order, onto ONE sequence: the receiver is a plain name (the positional
+        # slot of the accumulator), never an entry of a mapping keyed by tag / type (that groups the members by kind
+        # and loses their relative order)
+        recv_ = a.func.value
+        rep.check("M2", "update_args:members-on-one-sequence", isinstance(recv_, ast.Name), f"list members are collected with {text(a)[:70]}: bucketing them by key groups the members by kind, so the order of an interleaved list (X, Y, X) is not the document's any more" if not isinstance(recv_, ast.Name) else "", f"{rel}:{a.lineno}")
+    for a in appends:
         iff = parent(parent(a))
         while iff is not None and not isinstance(iff, ast.If):
             iff = parent(iff)
